@@ -12,7 +12,7 @@ exactly (lxs/pyconst.py, an own closed interpreter -- nothing of the repository 
 compared with the definition of the extended Hamming code (m minimal with 2**m >= m+k+1; check bits at the powers of two <= n; data
 at the other positions; check bit p covers the positions whose index has bit p set)."""
 import ast
-from ..core import AnalysisError, norm
+from ..core import AnalysisError, norm, cnorm
 from .. import boolx as B
 from .. import q
 from ..rules_stream import fx_of, fail_closed, prio, short
@@ -167,9 +167,13 @@ def run(ctx):
 
     # ---- decoder flip
     fl = [a for a in dec.find(domain="comb", target="codeword_c") if a.v != "codeword"]
-    ok = len(fl) == 1 and fl[0].v == "codeword ^ 2 ** (i - 1)" and q.EQ(fl[0], B.A("syndrome == i"))
+    fv = fl[0].loops[-1][0] if len(fl) == 1 and fl[0].loops else "i"        # the flip loop's variable, whatever it is called
+    ok = len(fl) == 1 and fl[0].v == f"codeword ^ 2 ** ({fv} - 1)" and q.EQ(fl[0], B.A(f"syndrome == {fv}"))
     ctx.ob("H1", F, "ECCDecoder", "syndrome i flips bit i - 1", ok, "" if ok else f"{[(a.v, a.gtext()) for a in fl]}", fl[0].line if fl else 0)
-    ok = len(fl) == 1 and any(it == "range(1, 2 ** len(syndrome))" for _, it in fl[0].loops)
+    sd = dec.decl.get("syndrome")
+    sw = norm(sd[1].args[0]) if sd and sd[0] == "Signal" and sd[1].args else None       # Signal(m): 2**len(syndrome) == 2**m
+    ok = len(fl) == 1 and any(cnorm(it) in {cnorm("range(1, 2 ** len(syndrome))")} | ({cnorm(f"range(1, 2 ** ({sw}))")} if sw else set())
+                              for _, it in fl[0].loops)
     ctx.ob("H1", F, "ECCDecoder", "flip cases for every syndrome 1 .. 2**m - 1", ok, "" if ok else f"{fl[0].loops if fl else '?'}")
     df = [a for a in dec.find(domain="comb", target="codeword_c") if a.v == "codeword"]
     ok = len(df) == 1 and all(p is False for _, p in df[0].guards)
